@@ -35,28 +35,7 @@ SUBJECTS = [
 ]
 
 
-import contextlib
-
-from vlib.symchars import is_tracing
-
-
-def untraced():
-    """Run a block natively even under CrossHair.  Used for the parts of a
-    history in which every value is concrete (the symbolic part of a schedule
-    is *which* enabled action comes next; once that choice is made the pool
-    code runs on concrete values)."""
-    if is_tracing():
-        from crosshair.tracers import NoTracing
-        return NoTracing()
-    return contextlib.nullcontext()
-
-
-def concrete_index(ch: int, n: int) -> int:
-    """Turn a symbolic choice into a concrete int by a chain of forks."""
-    for i in range(n):
-        if ch == i:
-            return i
-    return -1
+from vlib.concrete import untraced, concrete_index
 
 
 class _Clock:
